@@ -14,7 +14,7 @@ jobs = int(opt('jobs', '4'))
 names = opt('names', '')
 props = opt('props', '')
 sdir = opt('dir', 'seeded')
-work = '/tmp/matrix'
+work = os.environ.get('VERIF_MATRIX_WORK', '/tmp/matrix')
 os.makedirs(work, exist_ok=True)
 os.makedirs(os.path.join(ROOT, 'gen'), exist_ok=True)
 def sh(c, env=None): return subprocess.run(c, shell=True, capture_output=True, text=True, env=env)
